@@ -74,9 +74,9 @@ CORNERS = {
         ("failed-replay-of-finished-stream", (True, False, False), {"s1": True},
          "post|s1|r1 emit|s1|r1 cut|p.s1.r1 emit|s1|r1 ret|s1|r1 gateW|g1 get|g1|s1|r1|0 cut|g1 open get|g2|s1|r1|0 get|g3|s1|r1|2"),
         ("purge-during-replay", (True, False, False, 520), {"s1": False},
-         "post|s1|r1 emit|s1|r1 cut|p.s1.r1 emit|s1|r1 emit|s1|r1 emit|s1|r1 gateM|g1 get|g1|s1|r1|0 sa|s1 sa|s1 sa|s1 open emit|s1|r1 ret|s1|r1"),
-        ("purge-during-replay-2", (True, False, False, 700), {"s1": True, "s2": False},
-         "post|s1|r1 emit|s1|r1 cut|p.s1.r1 emit|s1|r1 emit|s1|r1 gateM|g1 get|g1|s1|r1|1 post|s2|r1 emit|s2|r1 emit|s2|r1 sa|s2 open emit|s1|r1 ret|s1|r1 ret|s2|r1"),
+         "post|s1|r1 emit|s1|r1 cut|p.s1.r1 emit|s1|r1 emit|s1|r1 emit|s1|r1 gateM|g1 get|g1|s1|r1|0 sa|s1 sa|s1 sa|s1 sa|s1 sa|s1 sa|s1 open emit|s1|r1 ret|s1|r1"),
+        ("purge-during-replay-2", (True, False, False, 600), {"s1": True},
+         "post|s1|r1 emit|s1|r1 cut|p.s1.r1 emit|s1|r1 emit|s1|r1 emit|s1|r1 gateM|g1 get|g1|s1|r1|1 post|s1|r2 emit|s1|r2 emit|s1|r2 emit|s1|r2 emit|s1|r2 emit|s1|r2 emit|s1|r2 emit|s1|r2 open emit|s1|r1 ret|s1|r1 ret|s1|r2"),
         ("held-response-vs-resume", (True, False, False), {"s1": True},
          "post|s1|r1 emit|s1|r1 cut|p.s1.r1 gateA|s1|r1 ret|s1|r1 get|g1|s1|r1|0 open get|g2|s1|r1|1"),
         ("conflict-then-resume", (True, False, False), {"s1": False},
@@ -375,7 +375,7 @@ def signature(pid, clause, trows, upto, e):
                 continue
             op = r.get("op")
             involved = sess in (r.get("a1"), r.get("a2")) or (op == "cut" and ("." + sess + ".") in (r.get("a1") or "")) \
-                or op in ("open", "cut", "gateA", "gateF", "gateW", "gateO")
+                or op in ("open", "cut", "gateA", "gateF", "gateW", "gateO", "gateM")
             if not involved:
                 continue
             ops.append(op)
@@ -480,7 +480,7 @@ def coverage(v, traces):
         distinct.add(key)
         ops = {s[0] for s in steps}
         nsess = len({s[1] for s in steps if s[0] == "post"})
-        if ops & {"cut", "get", "gateA", "gateF", "gateW", "gateO", "upd", "del", "delf"} or nsess > 1:
+        if ops & {"cut", "get", "gateA", "gateF", "gateW", "gateO", "gateM", "upd", "del", "delf"} or nsess > 1:
             nontrivial += 1
     v.cov["evaluations"] = evals
     v.cov["traces_validated_against_impl"] = len(traces)
